@@ -99,6 +99,8 @@ type EnumFlow struct {
 	// Post: postcondition summaries of helper functions: for callee f and
 	// parameter index k, the set the field may hold when f returns success.
 	Post func(callee *ssa.Function, argIdx int) (EnumSet, Conv, int, bool)
+
+	noWrite map[*ssa.Function]int
 }
 
 // UniverseOf lists the constant values of named type t in its package.
@@ -222,9 +224,93 @@ func (ef *EnumFlow) transfer(ins ssa.Instruction, base ssa.Value, st EnumSet) En
 		if ef.PureCalls[CalleeName(x)] {
 			return st
 		}
+		// a source helper that never stores the tracked field (nor hands its pointer arguments on to code that could)
+		// leaves the state as it is: extracting bookkeeping into a helper does not forget what is known about the object
+		if g := StaticCallee(x); g != nil && ef.neverWritesField(g, 0) {
+			return st
+		}
 		return TopSet()
 	}
 	return st
+}
+
+// neverWritesField: g and the source functions it calls statically (three levels) contain no store to a field named
+// ef.Field and no whole-struct store through a pointer parameter; calls that cannot be resolved and receive a pointer
+// to a struct with that field count as writers.
+func (ef *EnumFlow) neverWritesField(g *ssa.Function, d int) bool {
+	if ef.noWrite == nil {
+		ef.noWrite = map[*ssa.Function]int{}
+	}
+	switch ef.noWrite[g] {
+	case 1:
+		return true
+	case 2:
+		return false
+	}
+	if len(g.Blocks) == 0 || d > 3 {
+		return false
+	}
+	ef.noWrite[g] = 1 // recursion: assume
+	hasField := func(t types.Type) bool {
+		if p, ok := t.Underlying().(*types.Pointer); ok {
+			if st, ok := p.Elem().Underlying().(*types.Struct); ok {
+				for i := 0; i < st.NumFields(); i++ {
+					if st.Field(i).Name() == ef.Field {
+						return true
+					}
+				}
+			}
+		}
+		return false
+	}
+	ok := true
+	var fns []*ssa.Function
+	var collect func(f *ssa.Function)
+	collect = func(f *ssa.Function) {
+		fns = append(fns, f)
+		for _, a := range f.AnonFuncs {
+			collect(a)
+		}
+	}
+	collect(g)
+	for _, f := range fns {
+		for _, b := range f.Blocks {
+			for _, in := range b.Instrs {
+				switch x := in.(type) {
+				case *ssa.Store:
+					if fa, isFA := x.Addr.(*ssa.FieldAddr); isFA && fieldName(fa.X.Type(), fa.Field) == ef.Field {
+						ok = false
+					}
+					if _, isParam := x.Addr.(*ssa.Parameter); isParam && hasField(x.Addr.Type()) {
+						ok = false
+					}
+				case ssa.CallInstruction:
+					passes := false
+					for _, a := range x.Common().Args {
+						if hasField(a.Type()) {
+							passes = true
+						}
+					}
+					if x.Common().IsInvoke() && hasField(x.Common().Value.Type()) {
+						passes = true
+					}
+					if !passes || ef.PureCalls[CalleeName(x)] {
+						continue
+					}
+					h := StaticCallee(x)
+					if h == nil || !ef.neverWritesField(h, d+1) {
+						ok = false
+					}
+				}
+			}
+		}
+	}
+	if ok {
+		ef.noWrite[g] = 1
+	} else {
+		ef.noWrite[g] = 2
+	}
+	return ok
 }
 
 // refineEdge applies the branch condition of b's terminator on edge si.
